@@ -1,6 +1,7 @@
 package main
 
 import (
+	"bufio"
 	"bytes"
 	"encoding/hex"
 	"encoding/json"
@@ -9,7 +10,9 @@ import (
 	"math/rand"
 	"net"
 	"os"
+	"os/exec"
 	"path/filepath"
+	"runtime/debug"
 	"sort"
 	"strconv"
 	"strings"
@@ -184,6 +187,19 @@ func parseHeaderCmd(args []string) int {
 				bad(string(b), "non-digit in a numeric field", true)
 			}
 		}
+		// every run of bytes cut out of the 'type=T msg=' prefix
+		pre := strings.Index(line, "audit(")
+		for from := 0; from < pre; from++ {
+			for to := from + 1; to <= pre; to++ {
+				bad(line[:from]+line[to:], "cut", false)
+			}
+		}
+	}
+	// type names around the UNKNOWN[n] form
+	for _, tn := range []string{"]UNKNOWN[1329", "][", "a]b[1300]", "UNKNOWN]1[", "[", "]", "UNKNOWN[", "UNKNOWN[]", "UNKNOWN[-1]", "UNKNOWN[+1]",
+		"UNKNOWN[65536]", "UNKNOWN[99999999999999999999]", "UNKNOWN[1300", "UNKNOWN1300]", "UNKNOWN[[1300]]", "UNKNOWN[13 00]", "UNKNOWN[0x10]",
+		"[1300]", "]]]][[[[", "UNKNOWN[1300]]", "unknown[x]", "", " ", "=", "SYSCALL[", "SYSCALL]"} {
+		bad("type="+tn+" msg=audit(1490137971.011:50406): a=1", "typename", false)
 	}
 	w.close()
 	printJSON(map[string]interface{}{"stats": stats})
@@ -854,6 +870,7 @@ type totalCase struct {
 	text  string // what follows "msg="
 	shape string
 	name  string // type name for ParseLogLine ("" = the library's name)
+	line  string // a whole log line for ParseLogLine alone (text is then unused)
 }
 
 func digestOf(m *auparse.AuditMessage) string {
@@ -875,8 +892,15 @@ func runTotal(c totalCase) (ret string, same bool) {
 	if name == "" {
 		name = auparse.AuditMessageType(c.rtype).String()
 	}
-	m1, e1 := auparse.Parse(auparse.AuditMessageType(c.rtype), c.text)
-	m2, e2 := auparse.ParseLogLine("type=" + name + " msg=" + c.text)
+	var m1, m2 *auparse.AuditMessage
+	var e1, e2 error
+	if c.line != "" {
+		m1, e1 = auparse.ParseLogLine(c.line)
+		m2, e2 = nil, fmt.Errorf("unused")
+	} else {
+		m1, e1 = auparse.Parse(auparse.AuditMessageType(c.rtype), c.text)
+		m2, e2 = auparse.ParseLogLine("type=" + name + " msg=" + c.text)
+	}
 	for _, pr := range []struct {
 		m *auparse.AuditMessage
 		e error
@@ -979,6 +1003,29 @@ func parseTotalCmd(args []string) int {
 			}
 		})
 	}
+	// whole lines: runs of bytes cut out of the 'type=T msg=' prefix, type names around the UNKNOWN[n] form
+	for _, tn := range []string{"SYSCALL", "UNKNOWN[1999]", "USER_AUTH", "PATH"} {
+		l := "type=" + tn + " msg=" + hdr + "a=1"
+		pre := strings.Index(l, "audit(")
+		for from := 0; from < pre; from++ {
+			for to := from + 1; to <= pre; to++ {
+				all = append(all, totalCase{rtype: 1300, line: l[:from] + l[to:], shape: "prefix-cut"})
+			}
+		}
+	}
+	for _, tn := range []string{"]UNKNOWN[1329", "][", "a]b[1300]", "UNKNOWN]1[", "[", "]", "UNKNOWN[", "UNKNOWN[]", "UNKNOWN[-1]", "UNKNOWN[+1]",
+		"UNKNOWN[65536]", "UNKNOWN[99999999999999999999]", "UNKNOWN[1300", "UNKNOWN1300]", "UNKNOWN[[1300]]", "UNKNOWN[13 00]", "UNKNOWN[0x10]",
+		"[1300]", "]]]][[[[", "UNKNOWN[1300]]", "unknown[x]", " ", "=", "SYSCALL[", "SYSCALL]"} {
+		all = append(all, totalCase{rtype: 1300, line: "type=" + tn + " msg=" + hdr + "a=1", shape: "type-name"})
+	}
+	// values that are well-formed but name nothing the tables know
+	for _, rt := range []int{1300, 1326} {
+		for _, v := range []string{"arch=c000003f", "arch=0", "arch=deadbeef", "arch=ffffffff", "arch=1", "arch=c000003e syscall=99999", "arch=40000003 syscall=4000",
+			"arch=c000003e syscall=-1", "arch=c000003e syscall=0 exit=-4095", "arch=c000003e syscall=0 exit=-99999", "arch=c000003e syscall=0 sig=999", "arch=c000003e syscall=0 sig=-1",
+			"arch=c000003e syscall=0 a0=zz", "arch=c000003e syscall=0 auid=99999999999", "arch=c000003e syscall=0 ses=-1"} {
+			all = append(all, totalCase{rtype: rt, text: hdr + "exe=\"/bin/x\" " + v + " success=yes exit=0", shape: "unknown-to-the-tables"})
+		}
+	}
 	// corpus mutations
 	var corpus []string
 	for _, pat := range []string{"auparse/testdata/*.log", "testdata/*.log"} {
@@ -1034,51 +1081,142 @@ func parseTotalCmd(args []string) int {
 	w := newNDWriter(*out)
 	w.write(map[string]interface{}{"k": "meta", "family": "parse"})
 	stats := map[string]int{"corpus_lines": len(corpus)}
-	type res struct {
-		ret  string
-		same bool
+	// The inputs run in a child process: an unbounded recursion ends a Go process with a fatal error no
+	// recover() sees, and a spinning goroutine cannot be stopped.  The child announces each input before it
+	// runs it; when the child dies or stalls, the announced input is the one that did it (ret "crash" / "hang"),
+	// and one such input settles the verdict: the remaining ones are not run.
+	self, err := os.Executable()
+	if err != nil {
+		fatal("os.Executable: %v", err)
 	}
-	next := 0
+	cmd := exec.Command(self, "parse-total-child")
+	stdin, _ := cmd.StdinPipe()
+	stdout, _ := cmd.StdoutPipe()
+	var stderr bytes.Buffer
+	cmd.Stderr = &stderr
+	if err := cmd.Start(); err != nil {
+		fatal("cannot start the child: %v", err)
+	}
+	go func() {
+		enc := json.NewEncoder(stdin)
+		for i, c := range all {
+			enc.Encode(map[string]interface{}{"i": i, "rtype": c.rtype, "text": bytesOfS(c.text), "name": c.name, "line": bytesOfS(c.line)})
+		}
+		stdin.Close()
+	}()
+	lines := make(chan string, 64)
+	go func() {
+		sc := bufio.NewScanner(stdout)
+		sc.Buffer(make([]byte, 1<<20), 1<<26)
+		for sc.Scan() {
+			lines <- sc.Text()
+		}
+		close(lines)
+	}()
+	next, announced := 0, -1
+	emit := func(i int, ret string, same bool, detail string) {
+		c := all[i]
+		rec := map[string]interface{}{"k": "ptotal", "trace": i + 1, "shape": c.shape, "rtype": c.rtype, "ret": ret, "same": same}
+		if ret != "ok" && ret != "err" || !same || i%500 == 0 {
+			rec["text"] = bytesOfS(c.text + c.line)
+			rec["name"] = c.name
+		}
+		if detail != "" {
+			rec["detail"] = detail
+		}
+		w.write(rec)
+		stats["inputs"]++
+		stats["ret_"+ret]++
+	}
+	ended := ""
+loop:
 	for next < len(all) {
-		// a worker runs cases; if one takes longer than 20 s it is declared hung and a new worker continues
-		results := make(chan res)
-		start := next
-		go func() {
-			for i := start; i < len(all); i++ {
-				r, s := runTotal(all[i])
-				results <- res{r, s}
+		select {
+		case l, ok := <-lines:
+			if !ok {
+				ended = "crash"
+				break loop
 			}
-		}()
-		for next < len(all) {
-			var r res
-			hung := false
-			select {
-			case r = <-results:
-			case <-time.After(20 * time.Second):
-				r, hung = res{"hang", false}, true
+			var m struct {
+				Start *int   `json:"start"`
+				I     int    `json:"i"`
+				Ret   string `json:"ret"`
+				Same  bool   `json:"same"`
 			}
-			c := all[next]
-			rec := map[string]interface{}{"k": "ptotal", "trace": next + 1, "shape": c.shape, "rtype": c.rtype, "ret": r.ret, "same": r.same}
-			if r.ret == "panic" || r.ret == "hang" || !r.same || next%500 == 0 {
-				rec["text"] = bytesOfS(c.text)
-				rec["name"] = c.name
+			if json.Unmarshal([]byte(l), &m) != nil {
+				continue
 			}
-			w.write(rec)
-			stats["inputs"]++
-			stats["ret_"+r.ret]++
-			next++
-			if hung {
-				// the worker spins for good: one hang settles the verdict, stop here (the process
-				// exit ends the spinning goroutine; the remaining inputs are not run)
-				stats["not_run_after_hang"] = len(all) - next
-				w.close()
-				printJSON(map[string]interface{}{"stats": stats})
-				os.Exit(0)
+			if m.Start != nil {
+				announced = *m.Start
+				continue
+			}
+			emit(m.I, m.Ret, m.Same, "")
+			next = m.I + 1
+		case <-time.After(20 * time.Second):
+			ended = "hang"
+			break loop
+		}
+	}
+	if ended != "" {
+		cmd.Process.Kill()
+	}
+	cmd.Wait()
+	if ended != "" {
+		if announced != next {
+			fatal("the child ended (%s) outside an announced input (announced %d, next %d): %s", ended, announced, next, tailOf(stderr.String(), 2000))
+		}
+		detail := ""
+		if ended == "crash" {
+			detail = headOf(stderr.String(), 600)
+			if !strings.Contains(detail, "fatal error") && !strings.Contains(detail, "stack") && !strings.Contains(detail, "panic") {
+				fatal("the child died without a Go runtime error on input %d: %s", next, tailOf(stderr.String(), 2000))
 			}
 		}
+		emit(next, ended, false, detail)
+		stats["not_run_after_"+ended] = len(all) - next - 1
 	}
 	w.close()
 	printJSON(map[string]interface{}{"stats": stats})
+	return 0
+}
+
+func headOf(s string, n int) string {
+	if len(s) > n {
+		return s[:n]
+	}
+	return s
+}
+
+func tailOf(s string, n int) string {
+	if len(s) > n {
+		return s[len(s)-n:]
+	}
+	return s
+}
+
+// parse-total-child: runs the inputs given on stdin, announcing each one first.
+func parseTotalChild(args []string) int {
+	debug.SetMaxStack(64 << 20) // a runaway recursion ends quickly
+	in := bufio.NewScanner(os.Stdin)
+	in.Buffer(make([]byte, 1<<20), 1<<26)
+	out := bufio.NewWriter(os.Stdout)
+	for in.Scan() {
+		var c struct {
+			I     int    `json:"i"`
+			Rtype int    `json:"rtype"`
+			Text  []int  `json:"text"`
+			Name  string `json:"name"`
+			Line  []int  `json:"line"`
+		}
+		if err := json.Unmarshal(in.Bytes(), &c); err != nil {
+			continue
+		}
+		fmt.Fprintf(out, "{\"start\":%d}\n", c.I)
+		out.Flush()
+		ret, same := runTotal(totalCase{rtype: c.Rtype, text: string(toBytes(c.Text)), name: c.Name, line: string(toBytes(c.Line))})
+		fmt.Fprintf(out, "{\"i\":%d,\"ret\":%q,\"same\":%v}\n", c.I, ret, same)
+		out.Flush()
+	}
 	return 0
 }
 
@@ -1086,4 +1224,5 @@ func init() {
 	register("parse-header", parseHeaderCmd)
 	register("parse-fields", parseFieldsCmd)
 	register("parse-total", parseTotalCmd)
+	register("parse-total-child", parseTotalChild)
 }
